@@ -388,7 +388,7 @@ fn gen_onnx(rng: &mut Rng, quick: bool, cands: &[Vec<i64>]) -> Vec<FCase> {
         onnx_model(onnx::INT64, &[2, 3], &Src::Typed(6), false),
         onnx_model(onnx::UINT8, &[2, 3], &Src::Raw(vec![0; 6]), true),
     ];
-    let nflip = if quick { 120 } else { 12000 };
+    let nflip = if quick { 120 } else { 6000 };
     for i in 0..nflip {
         let base = &bases[i % bases.len()];
         let mut b = base.clone();
@@ -516,7 +516,7 @@ fn gen_rten(rng: &mut Rng, quick: bool, cands: &[Vec<i64>]) -> Vec<FCase> {
             bases.push(b);
         }
     }
-    let nflip = if quick { 300 } else { 30000 };
+    let nflip = if quick { 300 } else { 12000 };
     for i in 0..nflip {
         let base = &bases[i % bases.len()];
         let mut b = base.clone();
